@@ -37,8 +37,8 @@ def _is(err, cls) -> bool:
     return False
 
 
-STARTUP = ["complete", "failed", "raises (no lifespan support)", "hangs", "returns without answering", "sends an unknown message", "complete after 2 s", "failed without the optional message"]
-SHUTDOWN = ["complete", "failed", "raises", "hangs", "returns without answering", "failed without the optional message"]
+STARTUP = ["complete", "failed", "raises (no lifespan support)", "hangs", "returns without answering", "sends an unknown message", "complete after 2 s", "failed without the optional message", "returns at once without receiving anything (as the WSGI wrapper does)"]
+SHUTDOWN = ["complete", "failed", "raises", "hangs", "returns without answering", "failed without the optional message", "application had returned right after startup.complete"]
 
 
 def make_app(su: int, sd: int, work: dict):
@@ -49,6 +49,8 @@ def make_app(su: int, sd: int, work: dict):
 
         async def app(scope, receive, send, sync_spawn=None, call_soon=None):
             if scope["type"] == "lifespan":
+                if su == 8:
+                    return
                 m = await receive()
                 log.append((m["type"], sess.now))
                 scope["state"]["from_lifespan"] = "shared"
@@ -72,6 +74,8 @@ def make_app(su: int, sd: int, work: dict):
                     await sess.sleep(2)
                     await send({"type": "lifespan.startup.complete"})
                 log.append(("startup done", sess.now))
+                if sd == 6:
+                    return
                 m = await receive()
                 log.append((m["type"], sess.now))
                 if sd == 0:
@@ -101,6 +105,14 @@ def make_app(su: int, sd: int, work: dict):
                 if m["type"] != "http.request" or not m.get("more_body"):
                     break
             d = work.get(scope["raw_path"], 0)
+            if scope["raw_path"].startswith(b"/stream"):
+                # the head and the first chunk go out at once, the rest after the work is done
+                await send({"type": "http.response.start", "status": 200, "headers": [(b"content-length", b"2")]})
+                await send({"type": "http.response.body", "body": b"o", "more_body": True})
+                await sess.sleep(d)
+                await send({"type": "http.response.body", "body": b"k", "more_body": False})
+                log.append(("answered", scope["raw_path"], sess.now))
+                return
             if d:
                 await sess.sleep(d)
             await send({"type": "http.response.start", "status": 200, "headers": [(b"content-length", b"2")]})
@@ -115,13 +127,13 @@ def make_app(su: int, sd: int, work: dict):
 
 @harness(
     "C14",
-    dom={"su": (0, 7), "sd": (0, 5), "early": "bool", "inflight": "bool", "flavour": (0, 1)},
+    dom={"su": (0, 8), "sd": (0, 6), "early": "bool", "inflight": "bool", "flavour": (0, 1)},
     split={"su": "each", "flavour": "each"},
     witnesses=[{"su": 0, "sd": 0, "early": False, "inflight": True, "flavour": 0}, {"su": 1, "sd": 0, "early": True, "inflight": False, "flavour": 0}, {"su": 6, "sd": 3, "early": True, "inflight": False, "flavour": 0},
                {"su": 0, "sd": 0, "early": False, "inflight": True, "flavour": 1}, {"su": 3, "sd": 0, "early": True, "inflight": False, "flavour": 1}],
     budget=150,
     per_path=240,
-    bounds="asyncio and trio worker_serve with 8 lifespan startup scripts x 6 shutdown scripts (incl. failed events without the optional message) x a connection attempt before startup has finished or not x a request in flight at the trigger or not; startup_timeout=5, shutdown_timeout=4, graceful_timeout=3",
+    bounds="asyncio and trio worker_serve with 9 lifespan startup scripts x 7 shutdown scripts (incl. failed events without the optional message, an application that returns from the lifespan scope at once or right after startup) x a connection attempt before startup has finished or not x a request in flight at the trigger or not; startup_timeout=5, shutdown_timeout=4, graceful_timeout=3",
     encodes=["hypercorn/asyncio/run.py::worker_serve", "hypercorn/asyncio/lifespan.py::Lifespan.handle_lifespan", "hypercorn/asyncio/lifespan.py::Lifespan.wait_for_startup",
              "hypercorn/asyncio/lifespan.py::Lifespan.wait_for_shutdown", "hypercorn/asyncio/lifespan.py::Lifespan.asgi_send", "hypercorn/asyncio/tcp_server.py::TCPServer.run",
              "hypercorn/trio/run.py::worker_serve", "hypercorn/trio/lifespan.py::Lifespan.handle_lifespan", "hypercorn/trio/lifespan.py::Lifespan.wait_for_startup",
@@ -135,8 +147,8 @@ def lifespan_ordering(su: int, sd: int, early: bool, inflight: bool, flavour: in
     post: _
     """
     enter()
-    su = conc(su, 0, 7)
-    sd = conc(sd, 0, 5)
+    su = conc(su, 0, 8)
+    sd = conc(sd, 0, 6)
     flavour = conc(flavour, 0, 1)
     early = True if early else False
     inflight = True if inflight else False
@@ -147,7 +159,7 @@ def lifespan_ordering(su: int, sd: int, early: bool, inflight: bool, flavour: in
     if early and su in (3, 6) and (s.listening() or s.connect() is not None):
         why = "listening socket accepts connections before lifespan startup completed"
     s.advance(2.5)  # su == 6 completes at t=2
-    serves = su in (0, 2, 4, 5, 6)
+    serves = su in (0, 2, 4, 5, 6, 8)
     if not why and su in (1, 7):
         if not s.returned or not _is(s.error, LifespanFailureError):
             why = f"startup.failed did not abort the server: returned={s.returned} error={s.error!r}"
@@ -196,6 +208,16 @@ def lifespan_ordering(su: int, sd: int, early: bool, inflight: bool, flavour: in
         supported = su in (0, 6)
         if not s.returned:
             why = f"serve() did not return after shutdown (alive: {s.alive_tasks()})"
+        elif supported and sd == 6:
+            # the application left the lifespan scope after its startup: nobody is there to be told, serve() just ends
+            if shut:
+                why = "lifespan.shutdown delivered to an application that had already returned"
+            elif s.error is not None:
+                why = f"serve() ended with {s.error!r} because the application had left the lifespan scope early"
+            elif inflight:
+                resps, err, _, _ = h1_parse(c.out.peek(), [("GET", b"/slow")])
+                if err or not resps or not resps[0].complete:
+                    why = f"in-flight request was not delivered in full: {resps!r} {err}"
         elif supported and len(shut) != 1:
             why = f"lifespan.shutdown delivered {len(shut)} times"
         elif not supported and su != 4 and shut:
@@ -220,18 +242,19 @@ def lifespan_ordering(su: int, sd: int, early: bool, inflight: bool, flavour: in
 # ------------------------------------------------------------------ C15
 
 KINDS = ["idle keep-alive connection", "half a request head", "short request (1 s left)", "request longer than the grace period", "HTTP/2 connection with a slow stream",
-         "open WebSocket", "fresh connection (nothing sent)", "HTTP/2 connection with two streams finishing 0.2 s and 0.5 s after the trigger"]
+         "open WebSocket", "fresh connection (nothing sent)", "HTTP/2 connection with two streams finishing 0.2 s and 0.5 s after the trigger",
+         "streaming response under way (1 s left) with a second request already pipelined behind it"]
 
 
 @harness(
     "C15",
-    dom={"k0": (0, 7), "k1": (-1, 7), "source": (0, 1), "sd": (0, 1), "flavour": (0, 1)},
-    split={"k0": "each", "flavour": "each", "source": "each"},
+    dom={"k0": (0, 8), "k1": (-1, 8), "source": (0, 1), "sd": (0, 1), "flavour": (0, 1)},
+    split={"k0": "each", "flavour": "each", "source": "each", "sd": "each"},
     witnesses=[{"k0": 3, "k1": 2, "source": 0, "sd": 0, "flavour": 0}, {"k0": 0, "k1": -1, "source": 1, "sd": 0, "flavour": 0}, {"k0": 4, "k1": 5, "source": 0, "sd": 1, "flavour": 0},
                {"k0": 3, "k1": 2, "source": 0, "sd": 0, "flavour": 1}, {"k0": 7, "k1": 0, "source": 1, "sd": 0, "flavour": 1}],
     budget=200,
     per_path=240,
-    bounds="asyncio and trio worker_serve with 1..2 connections of 8 kinds (idle keep-alive, mid-head, short request, request longer than grace, HTTP/2 slow stream, open WebSocket, fresh, HTTP/2 with two streams finishing at different times within the grace period) at the trigger; trigger = callable or worker max_requests; lifespan shutdown completing or hanging; graceful_timeout=3, shutdown_timeout=4",
+    bounds="asyncio and trio worker_serve with 1..2 connections of 9 kinds (streaming response under way with a second request pipelined behind it, idle keep-alive, mid-head, short request, request longer than grace, HTTP/2 slow stream, open WebSocket, fresh, HTTP/2 with two streams finishing at different times within the grace period) at the trigger; trigger = callable or worker max_requests; lifespan shutdown completing or hanging; graceful_timeout=3, shutdown_timeout=4",
     encodes=["hypercorn/asyncio/run.py::worker_serve", "hypercorn/asyncio/tcp_server.py::TCPServer._idle_timeout", "hypercorn/asyncio/worker_context.py::WorkerContext.mark_request",
              "hypercorn/protocol/h11.py::H11Protocol._maybe_recycle", "hypercorn/protocol/h2.py::H2Protocol._handle_events", "hypercorn/protocol/h2.py::H2Protocol.stream_send",
              "hypercorn/trio/run.py::worker_serve", "hypercorn/trio/tcp_server.py::TCPServer._idle_timeout", "hypercorn/trio/worker_context.py::WorkerContext.mark_request"],
@@ -243,8 +266,8 @@ def graceful_shutdown(k0: int, k1: int, source: int, sd: int, flavour: int) -> b
     post: _
     """
     enter()
-    k0 = conc(k0, 0, 7)
-    k1 = conc(k1, -1, 7)
+    k0 = conc(k0, 0, 8)
+    k1 = conc(k1, -1, 8)
     flavour = conc(flavour, 0, 1)
     source = conc(source, 0, 1)
     sd = 3 if conc(sd, 0, 1) == 1 else 0
@@ -252,10 +275,10 @@ def graceful_shutdown(k0: int, k1: int, source: int, sd: int, flavour: int) -> b
     G, ST = 3.0, 4.0
     if kinds.count(4) + kinds.count(7) > 1:
         return done(True, skipped="one HTTP/2 connection per session")
-    n_requests = sum(1 for k in kinds if k in (0, 2, 3, 4)) + sum(1 for k in kinds if k == 5) + 2 * kinds.count(7)
+    n_requests = sum(1 for k in kinds if k in (0, 2, 3, 4, 8)) + sum(1 for k in kinds if k == 5) + 2 * kinds.count(7)
     cfg = make_config(startup_timeout=5, shutdown_timeout=ST, graceful_timeout=G, keep_alive_timeout=50,
                       max_requests=(n_requests if source == 1 else None))
-    s = _session_class(flavour)(make_app(0, sd, {b"/short": 1.5, b"/long": 1000, b"/h2slow": 1000, b"/h2a": 0.7, b"/h2b": 1.0}), cfg)
+    s = _session_class(flavour)(make_app(0, sd, {b"/short": 1.5, b"/long": 1000, b"/h2slow": 1000, b"/h2a": 0.7, b"/h2b": 1.0, b"/stream": 1.5}), cfg)
     conns = []
     h2c = None
     for k in kinds:
@@ -277,6 +300,8 @@ def graceful_shutdown(k0: int, k1: int, source: int, sd: int, flavour: int) -> b
             s.feed(tr, h2c.take())
         elif k == 5:
             s.feed(tr, ws_h1_handshake())
+        elif k == 8:
+            s.feed(tr, h1_request("GET", b"/stream", [HOSTH]) + h1_request("GET", b"/second", [HOSTH]))
         elif k == 7:
             h2c = H2Client()
             h2c.request(1, b"GET", b"/h2a", end_stream=True)
@@ -323,7 +348,7 @@ def graceful_shutdown(k0: int, k1: int, source: int, sd: int, flavour: int) -> b
             why = f"serve() has not returned {G + ST + 5} s after the trigger (alive: {s.alive_tasks()})"
         else:
             took = s.returned_at - t_fire
-            limit = (G if stuck else (1.0 if 2 in kinds else (0.9 if 7 in kinds else 0.0))) + (ST if sd == 3 else 0.0) + 0.1
+            limit = (G if stuck else (1.0 if (2 in kinds or 8 in kinds) else (0.9 if 7 in kinds else 0.0))) + (ST if sd == 3 else 0.0) + 0.1
             if took > limit:
                 why = f"shutdown took {took} s, limit {limit} s (grace {G}, shutdown_timeout {ST})"
     if not why and 2 in kinds:
@@ -331,6 +356,13 @@ def graceful_shutdown(k0: int, k1: int, source: int, sd: int, flavour: int) -> b
         resps, err, _, _ = h1_parse(tr.out.peek(), [("GET", b"/short")])
         if err or not resps or not resps[0].complete or resps[0].status != 200:
             why = f"request that finished within the grace period was not delivered in full: {resps!r} {err}"
+    if not why and 8 in kinds:
+        tr = conns[kinds.index(8)]
+        resps, err, _, trailing = h1_parse(tr.out.peek(), [("GET", b"/stream")])
+        if err or not resps or not resps[0].complete or resps[0].status != 200 or resps[0].body != b"ok":
+            why = f"response under way at the trigger was not delivered in full: {resps!r} {err}"
+        elif trailing or any(e[0] == "request" and e[1] == b"/second" for e in s.log):
+            why = f"the request pipelined behind it was taken on after the shutdown trigger (trailing bytes {trailing[:30]!r})"
     if not why and 7 in kinds:
         h2c.feed(conns[kinds.index(7)].out.take())
         for sid, path in ((1, b"/h2a"), (3, b"/h2b")):
@@ -346,7 +378,7 @@ def graceful_shutdown(k0: int, k1: int, source: int, sd: int, flavour: int) -> b
             why = f"lifespan.shutdown delivered {len(shut)} times"
         else:
             t_shut = shut[0][-1]
-            earliest = t_fire + (G if stuck else (1.0 if 2 in kinds else (0.5 if 7 in kinds else 0.0)))
+            earliest = t_fire + (G if stuck else (1.0 if (2 in kinds or 8 in kinds) else (0.5 if 7 in kinds else 0.0)))
             if t_shut < earliest - 1e-6:
                 why = f"lifespan.shutdown at t={t_shut}, before connections drained / grace elapsed (t={earliest})"
     if not why:
